@@ -716,7 +716,7 @@ class Visitor(ast.NodeVisitor):
         # Short-circuit tracing the all quantifier over a generator expression
         # fmt: off
         if (
-                func == builtins.all  # pylint: disable=comparison-with-callable
+                func is builtins.all  # (an identity: an arbitrary callable may compare equal to anything)
                 and len(node.args) == 1
                 and isinstance(node.args[0], ast.GeneratorExp)
         ):
@@ -925,7 +925,7 @@ class Visitor(ast.NodeVisitor):
         self, func: Callable[..., Any], node: ast.Call
     ) -> Any:
         """Re-write the all call with for loops to trace the first offending item, if any."""
-        assert func == builtins.all  # pylint: disable=comparison-with-callable
+        assert func is builtins.all
         assert len(node.args) == 1
         assert isinstance(node.args[0], ast.GeneratorExp)
 
